@@ -141,7 +141,7 @@ Proof.
     set (p := mkop cb all len 0 false).
     set (o0 := if write then with_wr ob (Some p) (o_evW ob) (o_reg ob) else with_rd ob (Some p) (o_evR ob) (o_reg ob)).
     assert (Ho0 : regok o0) by (unfold o0; destruct write; apply (regok_bits ob); auto).
-    assert (H0 : reg_inv (add_log s (LStart cb o write all len))) by (apply (reg_same_objs s); [reflexivity|exact Hi]).
+    assert (H0 : reg_inv (note_overlap (add_log s (LStart cb o write all len)) (if write then o_evW ob else o_evR ob))) by (apply (reg_same_objs s); [reflexivity|exact Hi]).
     destruct (l_disp _ <? sonic_MaxCallbackDispatch).
     + apply io_now_reg. apply reg_set_obj; assumption.
     + apply schedule_reg; assumption.
@@ -197,7 +197,7 @@ Qed.
 Theorem lstep_reg s o : reg_inv s -> reg_inv (lstep s o).
 Proof.
   intros Hi. unfold lstep.
-  set (s1 := mkloop (l_pending s) (l_disp s) (l_posts s) (l_objs s) (l_tmrs s) (l_progs s) (l_now s) (l_depth s) (l_log s) (l_fuel_out s) 300).
+  set (s1 := mkloop (l_pending s) (l_disp s) (l_posts s) (l_objs s) (l_tmrs s) (l_progs s) (l_now s) (l_depth s) (l_log s) (l_fuel_out s) 300 (l_overlap s)).
   assert (H1 : reg_inv s1) by exact Hi.
   destruct o.
   - apply reg_set_obj; [exact H1|]. unfold regok, new_obj; cbn. discriminate.
